@@ -27,7 +27,7 @@ ASSUMPTIONS = [
     "entries of a user dictionary for keys beyond the 20 amino acids take no part in the reduction nor in the alphabet",
 ]
 REQUIRED = {"all": ["salted_objects", "cells_checked", "sizes_rejected", "laws_checked", "user_total_accepted", "user_invalid_rejected",
-                    "user_switch_on_same_object", "size_forms_accepted", "user_total_with_extra_keys", "user_bijections"]}
+                    "user_switch_on_same_object", "size_forms_accepted", "user_total_with_extra_keys", "user_bijections", "amino_acid_mapped_onto_extra_key"]}
 SIZES = [2, 3, 4, 5, 6, 8, 10, 11, 12, 15, 18, 20]
 NSEQ = {"quick": 600, "thorough": 4000}
 NUSER = {"quick": 800, "thorough": 6000}
@@ -165,7 +165,7 @@ def judge_user(case, rep, S):
         images = rng.sample(list(M.AA), rng.randint(1, 6))
         ua = {a: rng.choice(images) for a in M.AA}
         kind = rng.choice(["total", "total", "total_with_extras", "bijection", "partial", "replaced_key", "lower_value", "non_aa_value",
-                           "non_dict", "wrong_type_value"])
+                           "non_dict", "wrong_type_value", "aa_onto_extra_key"])
         if kind == "bijection":
             letters = list(M.AA)
             rng.shuffle(letters)
@@ -177,7 +177,7 @@ def judge_user(case, rep, S):
         if kind == "total_with_extras":
             # entries for keys that are not amino acids (ambiguity codes, lower case) are not part of the alphabet
             for extra in rng.sample(["B", "Z", "X", "U", "a", "k", "*"], rng.randint(1, 3)):
-                ua[extra] = rng.choice(list(M.AA))
+                ua[extra] = rng.choice([rng.choice(list(M.AA)), extra, "X", "-"])
             rep.cnt("user_total_with_extra_keys")
             kind = "total"
         if kind == "total":
@@ -214,6 +214,12 @@ def judge_user(case, rep, S):
                 bad[rng.choice(list(M.AA))] = rng.choice(list(M.AA)).lower()
             elif kind == "non_aa_value":
                 bad[rng.choice(list(M.AA))] = rng.choice(["B", "X", "Z", "1", "", "AL", "*", "-"])
+            elif kind == "aa_onto_extra_key":
+                # the image of an amino acid must be an amino acid, also when the dictionary has an entry for that image
+                extra = rng.choice(["X", "B", "Z", "-", "k"])
+                bad[extra] = rng.choice([extra, rng.choice(list(M.AA))])
+                bad[rng.choice(list(seq)) if rng.random() < 0.7 else rng.choice(list(M.AA))] = extra
+                rep.cnt("amino_acid_mapped_onto_extra_key")
             elif kind == "wrong_type_value":
                 bad[rng.choice(list(M.AA))] = rng.choice([None, 3, 2.5])
             else:
